@@ -59,6 +59,11 @@ fn value_setup(ch: &mut Choices) -> Vec<Line> {
     }
 }
 
+/// Traffic through a pointer kept in a CSR is generated only where it is switched on (C12): inside a
+/// loop it can make the value analysis run forever (known finding KF-csr-pointer-loop), which every
+/// other check would meet as a hanging worker.
+pub static CSR_TRAFFIC: std::sync::atomic::AtomicBool = std::sync::atomic::AtomicBool::new(false);
+
 pub fn program(ch: &mut Choices, o: &WildOpts) -> (Vec<Line>, WildInfo) {
     if ch.chance(1, 14) {
         return shared_tails(ch);
@@ -131,7 +136,7 @@ pub fn program(ch: &mut Choices, o: &WildOpts) -> (Vec<Line>, WildInfo) {
         for _ in 0..nb {
             match ch.weighted(&[6, 4, if entry_labels.is_empty() { 0 } else { 3 }, 1]) {
                 0 => body.extend(value_setup(ch)),
-                1 if !o.c03_domain && ch.chance(1, 25) => {
+                1 if !o.c03_domain && CSR_TRAFFIC.load(std::sync::atomic::Ordering::Relaxed) && ch.chance(1, 25) => {
                     // traffic through a pointer kept in a CSR: a value is stored, read back, stored
                     // into a second slot and read back again (each read depends on the one before)
                     let p = *ch.pick(&[10u8, 5, 28]);
